@@ -148,6 +148,12 @@ def dslReset (r : Option ResetValue) : M (Option ResetValue) :=
   | none => pure none
 
 def dslOverride (target : String) (ov : AOverride) : M ObjectOverride := do
+  -- `transform_ref` looks at the kind first, the override transforms then reject layout items
+  -- before any value is parsed
+  match ov.kind with
+  | "buffer" => throw (frontErr "front_ref_buffer")
+  | "block" | "register" | "command" => pure ()
+  | _ => throw (frontErr "front_ref_ref")
   if !ov.illegal.isEmpty then throw (frontErr "front_override_layout")
   let address ← ov.address.mapM checkAddr
   let rep ← checkRepeat ov.repeat_
@@ -156,13 +162,11 @@ def dslOverride (target : String) (ov : AOverride) : M ObjectOverride := do
   | "register" =>
     let reset ← dslReset ov.reset
     pure (.register { name := target, access := ov.access, address := address,
-                            allowAddressOverlap := ov.allowAddressOverlap.getD false,
-                            reset := reset, repeat_ := rep })
-  | "command" =>
+                      allowAddressOverlap := ov.allowAddressOverlap.getD false,
+                      reset := reset, repeat_ := rep })
+  | _ =>
     pure (.command { name := target, address := address,
-                            allowAddressOverlap := ov.allowAddressOverlap.getD false, repeat_ := rep })
-  | "buffer" => throw (frontErr "front_ref_buffer")
-  | _ => throw (frontErr "front_ref_ref")
+                     allowAddressOverlap := ov.allowAddressOverlap.getD false, repeat_ := rep })
 
 mutual
 def dslObj (g : GlobalConfig) : AObj → M Object
